@@ -22,7 +22,7 @@ RULE = ('Seeded random cases. family "mean": a tree structure from a per-run poo
         'total weight, or a single client, or (clip) a non-zero tree; distinct by (structure, n, classes, leaf kind, '
         'value digest).')
 ASSUMPTIONS = [
-    'weights are finite, >= 0 and either 0 or in [1e-3, 1e4]; leaf magnitudes <= 4e12 (products and squares stay '
+    'weights are finite, >= 0 and either 0 or in [1e-9, 1e9] (classes tiny/huge included); leaf magnitudes <= 4e12 (products and squares stay '
     'inside float32 range); no NaN/Inf inputs',
     'clip bounds are > 0 (max_norm = 0 on a zero tree is outside the domain, DESIGN A14); non-zero leaves have '
     'magnitude >= 1e-6 so that squares do not underflow',
@@ -119,7 +119,7 @@ def build_pool(ctx, size):
 
 
 MAG_CLASSES = ['unit', 'milli', 'kilo', 'mega', '1e12', 'mixed']
-WEIGHT_CLASSES = ['floats', 'ints', 'all-zero', 'single-nonzero', 'some-zero', 'equal']
+WEIGHT_CLASSES = ['floats', 'ints', 'all-zero', 'single-nonzero', 'some-zero', 'equal', 'tiny', 'huge']
 WEIGHT_TYPES = ['float', 'int', 'np.float32', 'jax']
 LEAF_KINDS = ['jax', 'np', 'mixed']
 
@@ -153,6 +153,11 @@ def make_weights(rng, n, wclass, wtype):
     w = np.exp(rng.uniform(np.log(1e-3), np.log(1e4), size=n))
   elif wclass == 'ints':
     w = rng.randint(1, 2000, size=n).astype(np.float64)
+  elif wclass == 'tiny':
+    # positive weights whose TOTAL can lie below float32 eps (1.19e-7): still a perfectly good weighted mean
+    w = np.exp(rng.uniform(np.log(1e-9), np.log(6e-8), size=n))
+  elif wclass == 'huge':
+    w = np.exp(rng.uniform(np.log(1e6), np.log(1e9), size=n))
   elif wclass == 'all-zero':
     w = np.zeros(n)
   elif wclass == 'single-nonzero':
@@ -165,7 +170,9 @@ def make_weights(rng, n, wclass, wtype):
     w = np.full(n, float(rng.choice([1.0, 3.0, 0.25, 7.5])))
   if wtype == 'int':
     w = np.round(w)
-    if wclass not in ('all-zero', 'single-nonzero', 'some-zero'):
+    if wclass == 'tiny':
+      w = np.exp(rng.uniform(np.log(1e-9), np.log(6e-8), size=n))   # 'int' weights cannot be tiny: keep floats
+    elif wclass not in ('all-zero', 'single-nonzero', 'some-zero'):
       w = np.maximum(w, 1)
   if wtype in ('np.float32', 'jax'):
     w = w.astype(np.float32).astype(np.float64)   # the value actually handed over
@@ -352,6 +359,8 @@ def mean_case(ctx, mods, pool, rng):
   wclass = WEIGHT_CLASSES[rng.randint(len(WEIGHT_CLASSES))]
   wtype = WEIGHT_TYPES[rng.randint(len(WEIGHT_TYPES))]
   kind = LEAF_KINDS[rng.randint(len(LEAF_KINDS))]
+  if wclass == 'tiny' and wtype == 'int':
+    wtype = 'float'   # an int cannot hold a tiny positive weight
   values = make_values(rng, template, n, mag)
   weights = make_weights(rng, n, wclass, wtype)
   wit = {'structure': describe(template), 'n_clients': n, 'magnitude': mag, 'weight_class': wclass,
